@@ -220,6 +220,22 @@ func (s *Solver) ref(t *Term, sb *strings.Builder) (string, error) {
 	if s.isDefined(t.id) {
 		return name, nil
 	}
+	if s.Kind.Int {
+		if x := pow2Pattern(t); x != nil {
+			xr, err := s.ref(x, sb)
+			if err != nil {
+				return "", err
+			}
+			var alts []string
+			alts = append(alts, "(= "+xr+" 0)")
+			for j := 0; j < x.W; j++ {
+				alts = append(alts, fmt.Sprintf("(= %s %s)", xr, pow2(j)))
+			}
+			fmt.Fprintf(sb, "(define-fun %s () Bool (or %s))\n", name, strings.Join(alts, " "))
+			top.defined[t.id] = true
+			return name, nil
+		}
+	}
 	args := make([]string, len(t.Args))
 	for i, a := range t.Args {
 		r, err := s.ref(a, sb)
@@ -249,6 +265,32 @@ func (s *Solver) ref(t *Term, sb *strings.Builder) (string, error) {
 	fmt.Fprintf(sb, "(define-fun %s () %s %s)\n", name, sort, body)
 	top.defined[t.id] = true
 	return name, nil
+}
+
+// pow2Pattern recognises x&(x-1) == 0 (x is zero or a power of two) and
+// returns x. The equivalence is itself proved once per run as a BV query
+// (selftest "pow2-peephole").
+func pow2Pattern(t *Term) *Term {
+	if t.Op != "=" || len(t.Args) != 2 {
+		return nil
+	}
+	a, b := t.Args[0], t.Args[1]
+	if a.IsConst() {
+		a, b = b, a
+	}
+	if !b.IsConst() || b.C != 0 || a.Op != "bvand" {
+		return nil
+	}
+	for i := 0; i < 2; i++ {
+		x, y := a.Args[i], a.Args[1-i]
+		if y.Op == "bvsub" && sameTerm(y.Args[0], x) && y.Args[1].IsConst() && y.Args[1].C == 1 {
+			return x
+		}
+		if y.Op == "bvadd" && sameTerm(y.Args[0], x) && y.Args[1].IsConst() && y.Args[1].C == mask(x.W) {
+			return x
+		}
+	}
+	return nil
 }
 
 func bvBody(t *Term, a []string) string {
